@@ -18,6 +18,8 @@ use std::time::{Duration, Instant};
 
 pub struct C13;
 
+static CLOCK: std::sync::atomic::AtomicU64 = std::sync::atomic::AtomicU64::new(0);
+
 #[derive(Clone, Debug)]
 pub enum Call {
     Exec(&'static str),
@@ -155,6 +157,31 @@ pub fn workloads() -> Vec<Workload> {
             write_set: vec![1],
         },
         Workload {
+            name: "W13-reregistration-seen-by-a-thread-that-used-the-operator",
+            about: "a thread evaluates with an infix operator, another thread re-registers it with the other associativity; the first thread's evaluation that starts after the registration returned must group the new way",
+            pre: vec![Exec("1 + 1"), RegInfix("xo", 105, true, "O")],
+            // (same handler tag: only the grouping changes, so one evaluation cannot show a mixture)
+            threads: vec![vec![Exec("9 xo 3 xo 1"), Exec("9 xo 3 xo 1")], vec![RegInfix("xo", 105, false, "O")]],
+            post: vec![Exec("9 xo 3 xo 1")],
+            write_set: vec![1],
+        },
+        Workload {
+            name: "W15-reregistration-changes-grouping-and-handler",
+            about: "one re-registration that changes associativity AND handler against two evaluations: an evaluation must see the old operator or the new one, not the old grouping with the new handler (known finding: parse and exec read the registry at different times)",
+            pre: vec![Exec("1 + 1"), RegInfix("xo", 105, true, "O")],
+            threads: vec![vec![Exec("9 xo 3 xo 1"), Exec("9 xo 3 xo 1")], vec![RegInfix("xo", 105, false, "N")]],
+            post: vec![Exec("9 xo 3 xo 1")],
+            write_set: vec![1],
+        },
+        Workload {
+            name: "W14-reregister-existing-prefix-operators",
+            about: "re-registration of a user prefix operator and of the built-in `!` against evaluations using them: each evaluation sees the old or the new handler, never none",
+            pre: vec![Exec("1 + 1"), RegPrefix("npre", "old")],
+            threads: vec![vec![RegPrefix("npre", "new"), RegPrefix("!", "bang")], vec![Exec("npre 1"), Exec("! true")]],
+            post: vec![Exec("[npre 1, ! true]")],
+            write_set: vec![0],
+        },
+        Workload {
             name: "W9-first-use-register-x2",
             about: "the first engine calls are two registrations (one of a built-in operator) and an evaluation",
             pre: vec![],
@@ -284,7 +311,8 @@ pub fn child_main(args: &[String]) -> i32 {
     for c in &w.pre {
         run_call(c, &mut main_ctx);
     }
-    let obs: Arc<Mutex<Vec<Vec<String>>>> = Arc::new(Mutex::new(w.threads.iter().map(|_| Vec::new()).collect()));
+    #[allow(clippy::type_complexity)]
+    let obs: Arc<Mutex<(Vec<Vec<String>>, Vec<(usize, usize, u64, u64)>)>> = Arc::new(Mutex::new((w.threads.iter().map(|_| Vec::new()).collect(), Vec::new())));
     let mut handles = Vec::new();
     for (i, calls) in w.threads.iter().enumerate() {
         let sched = sched.clone();
@@ -293,9 +321,14 @@ pub fn child_main(args: &[String]) -> i32 {
         handles.push(std::thread::spawn(move || {
             sched.thread_start(i);
             let mut ctx = Context::new();
-            for c in &calls {
+            for (k, c) in calls.iter().enumerate() {
+                // only the baton holder runs, so this clock orders call boundaries of all threads
+                let start = CLOCK.fetch_add(1, std::sync::atomic::Ordering::SeqCst);
                 let r = run_call(c, &mut ctx);
-                obs.lock().unwrap().get_mut(i).unwrap().push(r);
+                let end = CLOCK.fetch_add(1, std::sync::atomic::Ordering::SeqCst);
+                let mut o = obs.lock().unwrap();
+                o.0.get_mut(i).unwrap().push(r);
+                o.1.push((i, k, start, end));
             }
             sched.thread_end(i);
         }));
@@ -322,7 +355,8 @@ pub fn child_main(args: &[String]) -> i32 {
     };
     let finished_ok = done && sched.wait_done();
     let mut rep = sched.report();
-    let mut all_obs = obs.lock().unwrap().clone();
+    let (mut all_obs, intervals) = obs.lock().unwrap().clone();
+    rep["calls"] = json!(intervals.iter().map(|(t, k, s, e)| json!([t, k, s, e])).collect::<Vec<_>>());
     if finished_ok {
         // the main thread is untracked: these calls run without scheduling
         all_obs.push(w.post.iter().map(|c| run_call(c, &mut main_ctx)).collect());
@@ -413,11 +447,15 @@ fn sequential_orders(w: &Workload) -> Vec<Vec<usize>> {
 }
 
 fn bound_for(w: &Workload, tier: Tier) -> usize {
+    // workloads that start after a warm-up have few decisions per execution: go deep
+    if tier == Tier::Thorough && !w.pre.is_empty() {
+        return if w.threads.len() == 2 { 8 } else { 4 };
+    }
     match (w.threads.len(), tier) {
         (2, Tier::Quick) => 3,
-        (2, Tier::Thorough) => 4,
+        (2, Tier::Thorough) => 6,
         (_, Tier::Quick) => 1,
-        (_, Tier::Thorough) => 2,
+        (_, Tier::Thorough) => 3,
     }
 }
 
@@ -430,7 +468,41 @@ struct Explored {
     noncandidates: u64,
 }
 
-fn explore(w: &Workload, bound: usize, reduce: bool, jobs: usize, budget: Duration, allowed: &BTreeSet<String>, out: &mut WorkerOut) -> (Explored, bool) {
+/// Is there a sequential order of the calls with exactly these results? Besides each
+/// thread's program order, one real-time constraint is imposed, the one the properties state
+/// ("once register_* has returned, every later evaluation uses the most recently registered
+/// handler"): a *registration* that returned before an *evaluation* started comes before it.
+/// (Full real-time order between arbitrary calls is not demanded: the property speaks of
+/// "some sequential order of the same calls".)
+fn linearizable(w: &Workload, obs: &str, calls: &[(usize, usize, u64, u64)], allowed: &[(Vec<usize>, String)]) -> bool {
+    let is_reg = |t: usize, k: usize| !matches!(w.threads[t][k], Call::Exec(_) | Call::Parse(_) | Call::Describe(_));
+    allowed.iter().any(|(order, o)| {
+        if o != obs {
+            return false;
+        }
+        // position of call (t, k) in the order
+        let mut seen = BTreeMap::new();
+        let mut pos = BTreeMap::new();
+        for (p, t) in order.iter().enumerate() {
+            let k = *seen.entry(*t).and_modify(|x| *x += 1usize).or_insert(0usize);
+            pos.insert((*t, k), p);
+        }
+        calls.iter().all(|(ta, ka, _, ea)| {
+            calls.iter().all(|(tb, kb, sb, _)| {
+                if ea < sb && is_reg(*ta, *ka) && !is_reg(*tb, *kb) {
+                    match (pos.get(&(*ta, *ka)), pos.get(&(*tb, *kb))) {
+                        (Some(pa), Some(pb)) => pa < pb,
+                        _ => true,
+                    }
+                } else {
+                    true
+                }
+            })
+        })
+    })
+}
+
+fn explore(w: &Workload, bound: usize, reduce: bool, jobs: usize, budget: Duration, allowed: &[(Vec<usize>, String)], out: &mut WorkerOut) -> (Explored, bool) {
     let queue: Mutex<Vec<Vec<usize>>> = Mutex::new(vec![vec![]]);
     let inflight = Mutex::new(0usize);
     let agg = Mutex::new(Explored { schedules: 0, points: 0, max_points: 0, states: BTreeSet::new(), outcomes: BTreeMap::new(), noncandidates: 0 });
@@ -509,11 +581,11 @@ fn explore(w: &Workload, bound: usize, reduce: bool, jobs: usize, budget: Durati
                             f.push((format!("deadlock:{}", w.name), case.clone(), d.to_string()));
                         } else if obs.contains("PANIC(") {
                             f.push((format!("panic-in-thread:{}", w.name), case.clone(), obs.clone()));
-                        } else if !allowed.contains(&obs) {
+                        } else if !linearizable(w, &obs, &j["calls"].as_array().map(|a| a.iter().filter_map(|c| Some((c[0].as_u64()? as usize, c[1].as_u64()? as usize, c[2].as_u64()?, c[3].as_u64()?))).collect::<Vec<_>>()).unwrap_or_default(), allowed) {
                             // the key identifies the exact per-thread result vectors (post-join results
                             // follow from them and are left out of the key)
                             let threads_only = serde_json::Value::Array(j["obs"].as_array().map(|a| a[..w.threads.len().min(a.len())].to_vec()).unwrap_or_default()).to_string();
-                            f.push((format!("not-linearizable:{}:outcome-{:08x}", w.name, hash64(&threads_only) & 0xffff_ffff), case.clone(), format!("per-thread results {} equal no sequential order of the calls; sequential outcomes: {:?}", obs, allowed)));
+                            f.push((format!("not-linearizable:{}:outcome-{:08x}", w.name, hash64(&threads_only) & 0xffff_ffff), case.clone(), format!("per-thread results {} equal no sequential order of the calls (in which a registration that had returned before an evaluation started comes first); sequential outcomes: {:?}", obs, allowed.iter().map(|a| &a.1).collect::<BTreeSet<_>>())));
                         }
                         if j["shared_contexts"].as_array().map(|a| !a.is_empty()).unwrap_or(false) {
                             f.push(("machinery:context-shared-between-threads".into(), case.clone(), "a context mutex was touched by two threads: the thread-local reduction is not valid".into()));
@@ -557,16 +629,16 @@ fn explore(w: &Workload, bound: usize, reduce: bool, jobs: usize, budget: Durati
 /// sequential reference + exploration of one workload (used by C13 and by C18's schedule stage)
 pub fn check_workload(w: &Workload, bound: usize, budget: Duration, out: &mut WorkerOut) {
     let jobs = std::env::var("VERIF_JOBS").ok().and_then(|s| s.parse().ok()).unwrap_or_else(|| std::thread::available_parallelism().map(|n| n.get()).unwrap_or(8).clamp(2, 32));
-    let mut allowed: BTreeSet<String> = BTreeSet::new();
+    let mut allowed: Vec<(Vec<usize>, String)> = Vec::new();
     for order in sequential_orders(w) {
         let o = order.iter().map(|t| t.to_string()).collect::<Vec<_>>().join(",");
         match run_child(&["seq".into(), w.name.into(), o.clone()], Duration::from_secs(30)) {
-            Ok(j) => {
-                allowed.insert(j["obs"].to_string());
-            }
+            Ok(j) => allowed.push((order.clone(), j["obs"].to_string())),
             Err(e) => out.fail("machinery:seq-child-failed", format!("{}|order={}", w.name, o), e),
         }
     }
+    let distinct_allowed: BTreeSet<&String> = allowed.iter().map(|a| &a.1).collect();
+    let n_allowed = distinct_allowed.len();
     let (mut ex, capped) = explore(w, bound, true, jobs, budget, &allowed, out);
     if !w.write_set.is_empty() {
         // a second pass without the registry reduction (every lock is a candidate) at one
@@ -588,7 +660,7 @@ pub fn check_workload(w: &Workload, bound: usize, budget: Duration, out: &mut Wo
     out.count("noncandidate_points", ex.noncandidates);
     out.count(&format!("schedules:{}", w.name), ex.schedules);
     out.count(&format!("max_points:{}", w.name), ex.max_points);
-    out.count(&format!("sequential_outcomes:{}", w.name), allowed.len() as u64);
+    out.count(&format!("sequential_outcomes:{}", w.name), n_allowed as u64);
     out.count(&format!("observed_outcomes:{}", w.name), ex.outcomes.len() as u64);
     if capped {
         out.count("time_capped_workloads", 1);
@@ -600,10 +672,10 @@ pub fn check_workload(w: &Workload, bound: usize, budget: Duration, out: &mut Wo
         out.nontrivial.insert(hash64(&format!("{}{}", w.name, o)));
         out.outcomes.insert(format!("{}:{}", w.name, hash64(o) % 1000));
     }
-    if allowed.len() >= 2 && ex.outcomes.len() < 2 && !capped {
-        out.fail("machinery:vacuous-workload", format!("{}|bound={}", w.name, bound), format!("sequential orders give {} outcomes but {} schedules produced only one", allowed.len(), ex.schedules));
+    if n_allowed >= 2 && ex.outcomes.len() < 2 && !capped {
+        out.fail("machinery:vacuous-workload", format!("{}|bound={}", w.name, bound), format!("sequential orders give {} outcomes but {} schedules produced only one", n_allowed, ex.schedules));
     }
-    out.sample(format!("{}: {} schedules, bound {}, up to {} decisions each, {} distinct result vectors (sequential reference: {})", w.name, ex.schedules, bound, ex.max_points, ex.outcomes.len(), allowed.len()));
+    out.sample(format!("{}: {} schedules, bound {}, up to {} decisions each, {} distinct result vectors (sequential reference: {})", w.name, ex.schedules, bound, ex.max_points, ex.outcomes.len(), n_allowed));
 }
 
 impl Prop for C13 {
@@ -622,8 +694,8 @@ impl Prop for C13 {
                  Reductions (both commute arguments, checked dynamically): locks of a thread's own Context and reads of an already-set cell are not preemption candidates; after initialisation, locks of registries the workload never writes are not candidates. \
                  Oracle: per-thread result vectors equal those of some sequential order of the calls (orders run in fresh processes), no panic, no deadlock, replay divergence = machinery error. distinct = distinct per-thread result vectors over all workloads",
                 ws.len(),
-                tier.pick(3, 4),
-                tier.pick(1, 2)
+                tier.pick(3, 6),
+                tier.pick(1, 3)
             ),
             assumptions: vec![
                 "the crate has no unsafe code and shares state only through Mutex / OnceCell (driver greps; VERIF_SCOPE_WARNING in the evidence otherwise), so scheduling at those operations is sufficient".into(),
@@ -631,7 +703,7 @@ impl Prop for C13 {
                 "a blocking primitive the hooks do not wrap shows up as 'uncontrolled blocking' (exit 2), never as a pass".into(),
             ],
             exhaustive: true,
-            bound: format!("preemption bound {} (2 threads) / {} (3 threads); threads <= 3; calls <= 2 per thread", tier.pick(3, 4), tier.pick(1, 2)),
+            bound: format!("preemption bound {} (2 threads) / {} (3 threads); threads <= 3; calls <= 2 per thread", tier.pick(3, 6), tier.pick(1, 3)),
             states_note: "states = distinct scheduler states (per-thread progress vectors) visited; transitions = scheduling decisions taken over all schedules".into(),
         }
     }
@@ -643,11 +715,11 @@ impl Prop for C13 {
         let bound = bound_for(w, tier);
         let budget = Duration::from_secs(tier.pick(45, 1500));
         check_workload(w, bound, budget, out);
-        let mut allowed: BTreeSet<String> = BTreeSet::new();
+        let mut allowed: Vec<(Vec<usize>, String)> = Vec::new();
         for order in sequential_orders(w) {
             let o = order.iter().map(|t| t.to_string()).collect::<Vec<_>>().join(",");
             if let Ok(j) = run_child(&["seq".into(), w.name.into(), o], Duration::from_secs(30)) {
-                allowed.insert(j["obs"].to_string());
+                allowed.push((order, j["obs"].to_string()));
             }
         }
         // the reduction must not change the verdict or the outcome set (W1, bound 1, quick cross-check)
